@@ -3,6 +3,8 @@
 use super::c13::ext_bytes;
 use crate::common::*;
 use crate::engine::{bx, hash_of, EnumPart, GenPart, Property, Stats, Tier};
+use crate::oracle::refcodec::RefPacket;
+use crate::oracle::refcrc;
 use crate::oracle::refrx::{delivery_allowed, Eff, RefRx, Seen};
 use dvb_gse_rust::gse_decap::{DecapStatus, GseDecapMemory};
 use proptest::prelude::*;
@@ -386,6 +388,59 @@ fn desc_sweep(_t: Tier, i: u64) -> Value {
     json!({"train": i / SWEEP_BITS, "packets": sweep_train(i / SWEEP_BITS).iter().map(|p| hex(p)).collect::<Vec<_>>(), "flipped_bit": i % SWEEP_BITS})
 }
 
+// ---- every announced total length for tiny trains with a consistent (forged) CRC ----------------------------
+
+const TL_VALUES: u64 = 64 + 8; // 0..=63 and a few large ones
+const TL_SHAPES: u64 = 3 * 3 * 4; // first payload 0..=2 x end payload 0..=2 x label case
+
+fn tl_value(k: u64) -> u16 {
+    if k < 64 {
+        k as u16
+    } else {
+        [255u16, 256, 4095, 4096, 32768, 65534, 65535, 257][(k - 64) as usize]
+    }
+}
+
+/// (packet sequence, announced total length, consistent total length)
+fn tl_case(i: u64) -> (Vec<Vec<u8>>, u16, u16) {
+    let (shape, k) = (i % TL_SHAPES, i / TL_SHAPES);
+    let (p0, p1, labcase) = ((shape % 3) as usize, ((shape / 3) % 3) as usize, shape / 9);
+    let announced = tl_value(k);
+    let lab = match labcase {
+        0 => Lab::Six([6, 5, 4, 3, 2, 1]),
+        1 => Lab::Three([1, 2, 3]),
+        2 => Lab::Broadcast,
+        _ => Lab::ReUse,
+    };
+    let pdu = pdu_bytes(p0 + p1, 700 + shape as u32);
+    let label = lab.bytes();
+    let ptype = 0x0800 + shape as u16;
+    // the CRC a sender announcing `announced` would have computed over what is actually carried: only the
+    // comparison of the announced with the received length stands between this train and a delivery
+    let crc = refcrc::gse_crc(announced, ptype, &label, &pdu);
+    let first = RefPacket { start: true, end: false, lt: lab.lt(), frag_id: Some(3), total_len: Some(announced), label: label.clone(), exts: vec![], ptype: Some(ptype), first_type: None, payload: pdu[..p0].to_vec(), crc: None }.encode(false);
+    let end = RefPacket { start: false, end: true, lt: 3, frag_id: Some(3), total_len: None, label: vec![], exts: vec![], ptype: None, first_type: None, payload: pdu[p0..].to_vec(), crc: Some(crc) }.encode(false);
+    let mut seq = vec![];
+    if lab == Lab::ReUse {
+        // a labelled complete packet first, so that the re-use label resolves
+        seq.push(ref_complete(Lab::Three([9, 9, 9]), 0x0800, &[1, 2, 3], &[], false));
+    }
+    seq.push(first);
+    seq.push(end);
+    (seq, announced, (2 + label.len() + p0 + p1) as u16)
+}
+
+fn check_tl(i: u64, st: &mut Stats) -> Result<(), String> {
+    let (seq, announced, consistent) = tl_case(i);
+    let (delivered, ends_open) = feed_and_judge(2, 64, &seq, st)?;
+    st.class(if announced == consistent { "announced==received" } else if announced < consistent { "announced<received" } else { "announced>received" });
+    st.class_if(delivered > 0, "delivered");
+    if ends_open > 0 {
+        st.nontrivial_distinct(1);
+    }
+    Ok(())
+}
+
 // ---- trains longer than announced by a multiple of 65536, into storages above 65535 bytes ------
 
 #[derive(Clone, Debug, PartialEq, Eq, Hash, Serialize, Deserialize)]
@@ -466,6 +521,15 @@ pub fn property() -> Property {
                 strategy: long_strategy,
                 check: check_long,
                 required_classes: &["exactly-65536-longer", "end-arrived-with-open-train"],
+            }),
+            Box::new(EnumPart {
+                name: "every-announced-total-length-x-tiny-train",
+                rule: "first fragment with 0..=2 payload bytes + end fragment with 0..=2 payload bytes (incl. the empty train) x {6-byte, 3-byte, broadcast, resolvable re-use label} x announced total length 0..=63, 255, 256, 257, 4095, 4096, 32768, 65534, 65535, the end fragment carrying the CRC a sender announcing that length would have computed: exhaustive; a delivery is allowed only when the announced length is the received one",
+                size: |_| TL_VALUES * TL_SHAPES,
+                exhaustive: |_| true,
+                check: check_tl,
+                describe: |_t, i| { let (seq, a, c) = tl_case(i); json!({"announced_total_length": a, "consistent_total_length": c, "packets": seq.iter().map(|p| hex(p)).collect::<Vec<_>>()}) },
+                required_classes: &["announced==received", "announced<received", "announced>received", "delivered"],
             }),
             Box::new(EnumPart {
                 name: "every-single-bit-flip",
